@@ -13,6 +13,7 @@ import Petl.ErrPolicy
 import Petl.Basics
 import Petl.Reshape
 import Petl.Views
+import Petl.TempFiles
 namespace Petl
 
 def opCmp : P String := do
@@ -787,6 +788,30 @@ def opMach : P String := do
     pure (" | ".intercalate tr)
   | _ => P.fail s!"bad machine {kind}"
 
+/-! ### C18: temp-file histories -/
+
+def showTFOut : TFOut → String
+  | .none => "." | .row k => s!"r{k}" | .stop => "STOP" | .raised => "RAISED" | .crash => "CRASH"
+
+/-- tf <nrows> <buffersize> <cache> <failAt|-> <n> ops…  with ops n | x<i> | d<i> | v -/
+def opTf : P String := do
+  let nrows ← pNat; let bs ← pNat; let cache ← pBool; let failAt ← pOptNat
+  let n ← pNat
+  let mut ops : Array TFOp := #[]
+  for _ in [0:n] do
+    let t ← tok
+    if t == "n" then ops := ops.push .new
+    else if t == "v" then ops := ops.push .dropView
+    else
+      match (t.drop 1).toString.toNat? with
+      | some i => ops := ops.push (if t.front == 'x' then .next i else .drop i)
+      | none => P.fail s!"bad op {t}"
+  let p : TFParams := { nrows := nrows, buffersize := bs, cache := cache, failAt := failAt }
+  let res := ops.toList.foldl (fun (acc : TFState × List String) op =>
+    let (s', o) := tfStep p acc.1 op
+    (s', acc.2 ++ [s!"{showTFOut o}:{s'.files.length}"])) (({} : TFState), [])
+  pure (" | ".intercalate res.2)
+
 def dispatch (op : String) : Option (P String) :=
   match op with
   | "cmp" => some opCmp
@@ -817,6 +842,7 @@ def dispatch (op : String) : Option (P String) :=
   | "xf" => some opXf
   | "rs" => some opRs
   | "mach" => some opMach
+  | "tf" => some opTf
   | _ => none
 
 end Petl
